@@ -161,9 +161,22 @@ func Load(dir string, deep bool, overlay map[string][]byte) (*Program, error) {
 	sort.Slice(p.Pkgs, func(i, j int) bool { return p.Pkgs[i].PkgPath < p.Pkgs[j].PkgPath })
 	p.allPkgs = pkgs
 	p.deep = true
+	decls := map[types.Object]*ast.FuncDecl{}
+	for _, pk := range p.Pkgs {
+		for _, f := range pk.Syntax {
+			for _, d := range f.Decls {
+				if fd, ok := d.(*ast.FuncDecl); ok {
+					if o := pk.TypesInfo.Defs[fd.Name]; o != nil {
+						decls[o] = fd
+					}
+				}
+			}
+		}
+	}
 	for _, pk := range p.Pkgs {
 		p.normalized += normalizeConstructions(pk)
 		p.normalized += unrollFunctionTables(pk)
+		p.normalized += normalizeFlagGates(pk, decls)
 	}
 	resolveNames(p.Pkgs)
 	buildDevirt(p.Pkgs)
